@@ -140,3 +140,15 @@ package scheduler
 //@   loop 1 invariant numValidatorsWithPi == NWithPi(vrf, nodes, idx())
 //@   precall scheduler\.sortNodesByHashedBeta$ :: numValidatorsWithPi == NWithPi(vrf, nodes, len(nodes)) && numValidatorsWithPi >= schedulerParameters.MinValidators
 //@   note the VRF-based sort keeps only candidates that submitted a proof, so it is used only when the number of CANDIDATE VALIDATORS with a proof (counted over the candidate list, not over all proofs of the epoch) reaches the minimum validator-set size; otherwise the entropy fallback orders all candidates. An election left with fewer than MinValidators returns an error from BeginBlock, which stops the chain (seed C10_j counted every proof of the epoch, compute nodes' included)
+
+// ---- genesis (C14): the tracked validator set is keyed by CONSENSUS key from the first block on ----
+
+//@ func Application.InitChain
+//@   props C14
+//@   requires app != nil && ctx != nil && doc != nil
+//@   assume-pre (scheduler/api\.VotingPowerFromStake|node\.Node\.HasRoles)$
+//@   loop 1 invariant forall k signature.PublicKey :: inDom(registeredValidators, k) ==> registeredValidators[k] != nil && registeredValidators[k].Consensus.ID == k
+//@   loop 2 invariant forall k signature.PublicKey :: inDom(registeredValidators, k) ==> registeredValidators[k] != nil && registeredValidators[k].Consensus.ID == k
+//@   loop 2 invariant forall k signature.PublicKey :: inDom(currentValidators, k) ==> inDom(registeredValidators, k)
+//@   precall scheduler/state\.MutableState\)\.PutCurrentValidators$ :: argIs(1, currentValidators) && (forall k signature.PublicKey :: inDom(currentValidators, k) ==> inDom(registeredValidators, k))
+//@   note the validator set tracked from genesis is keyed like the table of registered validators it was looked up in - by the node's CONSENSUS key, the key the consensus engine knows the validator by and the key every later election's pending set is keyed by: the first election's diff (removals of validators that are not re-elected, power changes) is computed key by key against it (seed C14_k keyed the genesis set by node identity: the first update removed keys the engine never had and kept a validator that was not re-elected)
